@@ -169,7 +169,8 @@ def run_one(sc, root, helper, tacd_dir):
     denv = {"PATH": tacd_dir + os.pathsep + os.environ.get("PATH", ""), "GIT_CONFIG_GLOBAL": gitcfg,
             "GIT_CONFIG_SYSTEM": gitcfg}
     dmn = flow.Daemon(cfg_path, env=denv)
-    flow.wait_for(lambda: len(flow.post_ops(log)) >= sc["n"] or not dmn.alive(), 40 + 10 * sc["n"])
+    flow.wait_progress(lambda: len(flow.post_ops(log)) >= sc["n"] or not dmn.alive(),
+                       lambda: len(ca.log), idle=40 + 10 * sc["n"], cap=600)
     rc = dmn.stop()
     ca.stop()
     posts = flow.post_ops(log)[:sc["n"]]
